@@ -95,8 +95,11 @@ def gen_target(rng, wn, w):
         cs.append(c)
         ws.append(width)
     auto = (m >= 2) and rng.random() < 0.35
-    if len(set(cs)) != len(cs):
-        cs = [c + 1e-3 * k for k, c in enumerate(cs)]
+    # keep target centres apart: auto-derived widths of (nearly) coincident centres are differences of nearly
+    # equal floats, which no tolerance can compare meaningfully
+    srt = sorted(cs)
+    if any(b_ - a_ < 1e-6 * span for a_, b_ in zip(srt, srt[1:])):
+        cs = [a + 0.05 * span + 0.9 * span * (k + 0.5) / m for k in range(m)]
     return style, np.array(cs, float), (None if auto else np.array(ws, float))
 
 
@@ -213,7 +216,7 @@ def check_flux_case(ctx, mt, res):
         iv = float(flux[j])
         if not C.close(impl['wn'][j], float(m_wn), rel=1e-12):
             bad = 'target centre %d: impl %r model %r' % (j, impl['wn'][j], float(m_wn))
-        elif not C.close(impl['width'][j], float(m_w), rel=1e-9):
+        elif not C.close(impl['width'][j], float(m_w), rel=1e-9, abs_=1e-12 * abs(float(m_wn))):
             bad = 'target width %d: impl %r model %r' % (j, impl['width'][j], float(m_w))
         elif spec is None:
             # no overlap: the property says nothing; model and impl must still agree unless 0/0
